@@ -81,6 +81,44 @@ Theorem C04_refresh_other_accounts_untouched : forall w parent all tip p km k m 
 Proof. exact refresh_apply_other_account. Qed.
 Print Assumptions C04_refresh_other_accounts_untouched.
 
+(** The whole refresh (the node's answers applied, THEN stale coinbase candidates dropped): a queried
+    record the node reports in its unspent set is still recorded afterwards, Unspent or Locked. The
+    cleanup only takes records stored under (key id, no MMR index) of Unconfirmed candidates; the
+    side condition excludes a record shadowed by an Unconfirmed one under the same key id (key ids
+    are unique unless the same output was restored twice). The order of the two steps is what the
+    seeded change C04_m4 reverses. *)
+Theorem C04_stale_candidate_cleanup_keeps_settled_records : forall w parent tip k m o,
+  get_out (w_outs w) k m = Some o ->
+  (forall d, In d (w_outs w) -> r_status d = Unconfirmed -> r_key d = k -> m <> None) ->
+  get_out (w_outs (clean_old_unconfirmed w parent tip)) k m = Some o.
+Proof. exact clean_old_keeps. Qed.
+Print Assumptions C04_stale_candidate_cleanup_keeps_settled_records.
+
+Theorem C04_refresh_keeps_outputs_on_chain : forall w parent all tip p km q,
+  WF w -> lookup (w_confh w) parent <= tip ->
+  In q (refresh_set w parent all) ->
+  (r_status q = Locked ->
+     match r_tx q with
+     | Some i => existsb (N.eqb i) (reverted_ids w parent (refresh_set w parent all) p km) = false
+     | None => True end) ->
+  present_height p (r_key q) (r_mmr q) <> None ->
+  (forall d, In d (w_outs (refresh_apply w parent all tip p km)) -> r_status d = Unconfirmed ->
+             r_key d = r_key q -> r_mmr q <> None) ->
+  exists o', get_out (w_outs (refresh w parent all tip p km)) (r_key q) (r_mmr q) = Some o'
+    /\ (r_status o' = Unspent \/ r_status o' = Locked).
+Proof. exact refresh_keeps_present. Qed.
+Print Assumptions C04_refresh_keeps_outputs_on_chain.
+
+(** non-vacuity: an account builds two coinbases (heights 1 and 2), only the first is mined, and it
+    first looks at tip 60: the mined one is confirmed, the candidate that never made it is dropped. *)
+Example C04_late_refresh_example :
+  let w0 := fst (step empty_wallet (OpCoinbase 0 1 None)) in
+  let w1 := fst (step w0 (OpCoinbase 0 2 None)) in
+  let w2 := refresh w1 0 true 60 [((0, 0), None, 1)] [] in
+  map r_status (w_outs w1) = [Unconfirmed; Unconfirmed]
+  /\ map (fun o => (r_key o, r_status o)) (w_outs w2) = [((0, 0), Unspent)].
+Proof. vm_compute. repeat split; reflexivity. Qed.
+
 (** non-vacuity: a coinbase confirmed at height 1 is immature until its lock height, then
     spendable; a refresh at tip 5 that no longer finds it marks it Spent. *)
 Example C04_example :
